@@ -15,25 +15,25 @@
 (* Real-process recordings see only the body (read / modify, ordered by a       *)
 (* ticket drawn under a shared lock) and the final files: the other steps are   *)
 (* `hidden` and may be interposed by TLC.  Thread-level recordings see all.     *)
-(* Each line is validated independently (ci = line number); register ci holds   *)
-(* the longest consumed prefix; a trace is accepted iff that is all its events. *)
+(* Each line is validated independently (tid = line number; the line itself is  *)
+(* the frozen variable tr); register tid holds the longest consumed prefix; a   *)
+(* trace is accepted iff that is all its events.                                *)
 EXTENDS TileLock, Json, IOUtils
 
-Traces    == ndJsonDeserialize(IOEnv.TRACES)
-TraceCfgs == [t \in DOMAIN Traces |-> Traces[t].cfg]
+Traces == ndJsonDeserialize(IOEnv.TRACES)
 
-VARIABLE i
-tvars == <<vars, i>>
+VARIABLES tid, tr, i
+tvars == <<vars, tid, tr, i>>
 
-Events   == Traces[ci].events
+Events   == tr.events
 Ev       == Events[i]
 Is(name) == i <= Len(Events) /\ Ev.ev = name
 Mine(p)  == Ev.p = p /\ Ev.i = upd[p]
-Hid(name) == name \in Range(Traces[ci].hidden)
-Eat      == i' = i + 1
-Skip     == i' = i
+Hid(name) == name \in Range(tr.hidden)
+Eat      == i' = i + 1 /\ UNCHANGED <<tid, tr>>
+Skip     == i' = i /\ UNCHANGED <<tid, tr>>
 
-TraceInit == Init /\ i = 1
+TraceInit == \E t \in DOMAIN Traces : tid = t /\ tr = Traces[t] /\ i = 1 /\ InitFor(Traces[t].cfg)
 
 TraceNext ==
     \/ \E p \in Procs :
@@ -56,7 +56,7 @@ TraceNext ==
 TraceSpec == TraceInit /\ [][TraceNext]_tvars
 
 \* bookkeeping: longest consumed prefix per trace (TLC registers; run with -workers 1)
-Consumed == TLCSet(ci, IF TLCGet(ci) < i - 1 THEN i - 1 ELSE TLCGet(ci))
+Consumed == TLCSet(tid, IF TLCGet(tid) < i - 1 THEN i - 1 ELSE TLCGet(tid))
 Report   == PrintT("CONSUMED " \o ToJson([t \in DOMAIN Traces |-> <<TLCGet(t), Len(Traces[t].events)>>]))
 \* the specification's own theorems also hold along every accepted prefix
 TraceSafe == Mutex /\ NoPartialRead /\ SerialPrefix /\ NoLostUpdate
